@@ -677,7 +677,18 @@ impl Scenario for ConsumerRace {
                 v.push(json!({"close": close, "bound": bound}));
             }
             v.push(json!({"close": close, "bound": 16, "fine": true}));
+            // the consumers are dropped (not cancelled and kept): nothing but the Consumer
+            // holds the queue's receiving end when the server's close meets the cancel in flight
+            v.push(json!({"close": close, "bound": 16, "fine": true, "dropall": true}));
+            v.push(json!({"close": close, "bound": 16, "dropall": true}));
         }
+        // the same race without a server that closes out of the blue: a nowait purge of a
+        // missing queue makes the server close the channel while the drop's cancel is in flight
+        v.push(json!({"close": "channel", "bound": 16, "fine": true, "dropall": true, "fail404": true}));
+        v.push(json!({"close": "channel", "bound": 16, "dropall": true, "fail404": true}));
+        // the client's own Connection::close meets the drops' cancels in flight
+        v.push(json!({"close": "client", "bound": 16, "fine": true, "dropall": true}));
+        v.push(json!({"close": "client", "bound": 16, "dropall": true}));
         v
     }
     fn bound(&self, tier: &str, p: &Value) -> usize {
@@ -696,6 +707,9 @@ impl Scenario for ConsumerRace {
     fn build(&self, p: &Value) -> Built {
         let conn_close = p["close"] == "connection";
         let bound = p["bound"].as_u64().unwrap() as usize;
+        let dropall = p["dropall"] == true;
+        let fail404 = p["fail404"] == true;
+        let client_close = p["close"] == "client";
         let mut broker = StdBroker::new(Handshake::default());
         // channel 1: Open = request 1, the two consumes = requests 2 and 3; channel 2: consume = 2
         let l = chain(&mut broker, "d.a", vec![deliver(1, "ctag-1-2", 30), header(1, 0, false)], None, Some((1, 3)));
@@ -709,7 +723,9 @@ impl Scenario for ConsumerRace {
                 p.not_after_client_method = Some((2, 60, 30));
             }
         }
-        if conn_close {
+        if fail404 || client_close {
+            // the close is the server's answer to thread a's purge / main's own
+        } else if conn_close {
             broker.pushes.push(Push::new("close", vec![conn_close_frame(320, "going down")]).when_channel(1, 3));
         } else {
             broker.pushes.push(Push::new("close", vec![chan_close_frame(1, 406, "PRECONDITION_FAILED")]).when_channel(1, 3));
@@ -733,6 +749,7 @@ impl Scenario for ConsumerRace {
                 };
                 let ch1 = conn.open_channel(Some(1)).expect("ch1");
                 let ch2 = conn.open_channel(Some(2)).expect("ch2");
+                let (ready_tx, ready) = crossbeam_channel::bounded::<()>(1);
                 let a = ctx.spawn("a", move |ctx| {
                     let c1 = ch1.basic_consume("q", ConsumerOptions::default());
                     let c2 = ch1.basic_consume("q", ConsumerOptions::default());
@@ -745,6 +762,20 @@ impl Scenario for ConsumerRace {
                         }
                     };
                     ctx.log(format!("tags {} {}", c1.consumer_tag(), c2.consumer_tag()));
+                    if fail404 {
+                        let r = ch1.queue_purge_nowait("no-such-queue");
+                        ctx.log(format!("purge -> {:?}", r.map_err(|e| err_name(&e))));
+                    }
+                    let _ = ready_tx.send(());
+                    if dropall {
+                        drop(c1);
+                        ctx.log("dropped 1");
+                        drop(c2);
+                        ctx.log("dropped 2");
+                        let r = ch1.close();
+                        ctx.log(format!("chclose -> {:?}", r.map_err(|e| err_name(&e))));
+                        return;
+                    }
                     let r = c1.cancel();
                     ctx.log(format!("cancel -> {:?}", r.map_err(|e| err_name(&e))));
                     drain_consumer(&ctx, "consumer1", c1.receiver());
@@ -761,7 +792,7 @@ impl Scenario for ConsumerRace {
                             return;
                         }
                     };
-                    if !conn_close {
+                    if !conn_close || dropall {
                         // the other channel is not affected: its consumer ends when it says so
                         if let Ok(m) = ctx.recv("consumer3", c3.receiver()) {
                             ctx.log(format!("consumer3 <- {}", consumer_msg_name(&m)));
@@ -774,6 +805,15 @@ impl Scenario for ConsumerRace {
                     let r = ch2.close();
                     ctx.log(format!("chclose -> {:?}", r.map_err(|e| err_name(&e))));
                 });
+                if client_close {
+                    // close as soon as thread a has its consumers, while a and b carry on
+                    let _ = ctx.recv("ready", &ready);
+                    let r = conn.close();
+                    ctx.log(format!("close -> {}", res(&r)));
+                    ctx.join(a);
+                    ctx.join(b);
+                    return;
+                }
                 ctx.join(a);
                 ctx.join(b);
                 let r = conn.close();
@@ -784,6 +824,21 @@ impl Scenario for ConsumerRace {
     fn check(&self, p: &Value, o: &Outcome, _w: &World) -> Vec<(String, String)> {
         let mut v = Vec::new();
         let conn_close = p["close"] == "connection";
+        if p["close"] == "client" {
+            // the client's close completes normally whatever the other threads are doing
+            let main = o.logs.get("main").cloned().unwrap_or_default();
+            let a = o.logs.get("a").cloned().unwrap_or_default();
+            if a.iter().any(|l| l.starts_with("consume -> ")) {
+                return v;
+            }
+            if main.last().map(|s| s.as_str()) != Some("close -> Ok") {
+                v.push(("race:close".into(), format!("main log {:?} expected close -> Ok", main)));
+            }
+            if !a.iter().any(|l| l == "dropped 2") || !a.iter().any(|l| l.starts_with("chclose -> ")) {
+                v.push(("race:drop-hangs".into(), format!("thread a did not get through its drops: {:?}", a)));
+            }
+            return v;
+        }
         let a = o.logs.get("a").cloned().unwrap_or_default();
         let b = o.logs.get("b").cloned().unwrap_or_default();
         let main = o.logs.get("main").cloned().unwrap_or_default();
@@ -805,6 +860,27 @@ impl Scenario for ConsumerRace {
             (Some(_), None) => true,
             _ => false,
         };
+        if p["dropall"] == true {
+            // dropping consumers never costs the connection: thread b and main see exactly
+            // what they see when thread a keeps its consumers
+            if !a.iter().any(|l| l == "dropped 2") || !a.iter().any(|l| l.starts_with("chclose -> ")) {
+                v.push(("race:drop-hangs".into(), format!("thread a did not get through its drops: {:?}", a)));
+            }
+            if !conn_close {
+                let want_b = ["cancel -> Ok(())", "consumer3 disconnected", "chclose -> Ok(())"];
+                for w in want_b {
+                    if !b.iter().any(|l| l == w) {
+                        v.push(("race:other-channel-affected".into(), format!("thread b (channel 2) logged {:?}, expected to contain {:?}", b, w)));
+                        break;
+                    }
+                }
+            }
+            let want_close = if conn_close && pos_close.is_some() { format!("close -> Err({})", srv_err) } else { "close -> Ok".to_string() };
+            if main.last() != Some(&want_close) {
+                v.push(("race:close".into(), format!("main log {:?} expected {}", main, want_close)));
+            }
+            return v;
+        }
         let want = |who: &str| -> (u64, String) {
             match who {
                 "consumer1" => (30, if cancelled_first { "ClientCancelled".to_string() } else { srv_terminal.clone() }),
